@@ -24,6 +24,9 @@ type HistOpts struct {
 	Race   bool
 	// RestartPermille: probability (per mille) of stopping and restarting the replica process after a commit.
 	RestartPermille int
+	// Mempool: like a real node, CheckTx every transaction of a block before the block is executed, plus
+	// transactions that are checked but never delivered (per mille of blocks that get the extra ones).
+	Mempool int
 	// Hook is called after each committed block (for checks that need extra observation).
 	Hook func(hr *HistRun, h int64) error
 	// Script may replace / extend the generated block.
@@ -259,6 +262,25 @@ func runHistory(c *Ctx, caseIdx int, rng *rand.Rand, o *HistOpts) *HistRun {
 		}
 		hr.Blocks = append(hr.Blocks, b)
 		hr.Txs = append(hr.Txs, txs)
+		if o.Mempool > 0 {
+			var pool [][]byte
+			pool = append(pool, b.Txs...)
+			if rng.Intn(1000) < o.Mempool {
+				pool = append(pool, directedConflicts(g.Keys, g.G.ChainID, pre, h, rng)...)
+			}
+			for _, tx := range pool {
+				if _, err := r.CheckTx(tx); err != nil {
+					if de, ok := err.(*ErrDead); ok {
+						hr.Died = de
+						hr.issue("C09", "replica-died:"+sigLine(de.Stderr), fmt.Sprintf("history %s: the node died in CheckTx before block %d\n%s", o.Name, h, de.Error()))
+						return hr
+					}
+					c.Err(caseIdx, "checktx", err)
+					return hr
+				}
+				c.Count("mempool-checks", 1)
+			}
+		}
 		res, err := execBlock(r, g.G.ChainID, b, hr.AppHash)
 		if err != nil {
 			if de, ok := err.(*ErrDead); ok {
